@@ -131,3 +131,27 @@ theorem getApp_setApp_same (s : PState) (h : String) (a : AppM) : getApp (setApp
       intro x hx hxe
       exact hnone (List.any_eq_true.mpr ⟨x, hx, hxe⟩)
     simp [this, List.find?]
+
+theorem getApp_setApp_ne (s : PState) (h h' : String) (a : AppM) (hne : h' ≠ h) :
+    getApp (setApp s h a) h' = getApp s h' := by
+  unfold getApp setApp
+  simp only
+  split
+  · induction s.apps with
+    | nil => rfl
+    | cons p ps ih =>
+      simp only [List.map_cons, List.find?]
+      by_cases hp : p.1 = h
+      · have h1 : (p.1 == h) = true := by simp [hp]
+        have h2 : (h == h') = false := by simpa using fun e => hne e.symm
+        have h3 : (p.1 == h') = false := by simpa [hp] using fun e => hne e.symm
+        simp only [h1, if_true, h2, h3]
+        exact ih
+      · have h1 : (p.1 == h) = false := by simpa using hp
+        simp only [h1, Bool.false_eq_true, if_false]
+        cases hq : (p.1 == h') with
+        | true => rfl
+        | false => exact ih
+  · rw [List.find?_append]
+    have : ((h, a).1 == h') = false := by simpa using fun e => hne e.symm
+    simp [List.find?, this]
